@@ -67,9 +67,9 @@ def _let_stmt(text, toks, first, who):
 
 
 @R.rule('c13-filter-map-find-loop')
-def filter_map_find_loop(text, **_):
+def filter_map_find_loop(text, ty=None, **_):
     """`let V = E.iter().filter_map(|X| M).find(|Y| P);`   (E a slice)   ->
-         let mut V = None; let __fs = E; let mut __fk: usize = 0;
+         let mut V: TY = None; let __fs = E; let mut __fk: usize = 0;     (TY = rule argument `ty`, checked by rustc against the uses of V)
          while __fk < __fs.len() { let X = &__fs[__fk]; __fk += 1;
              if let Some(__fy) = (M) { let __fhit = { let Y = &__fy; P }; if __fhit { V = Some(__fy); break; } } }
     std: slice::Iter yields `&E[0], &E[1], ...` in order; Iterator::filter_map "yields only the values for which the supplied closure
@@ -97,9 +97,9 @@ def filter_map_find_loop(text, **_):
             first = _receiver_start(text, toks, i - 6)
             let_i, v = _let_stmt(text, toks, first, 'c13-filter-map-find-loop')
             recv = ' '.join(text[toks[first][1]:toks[i - 5][1]].split())
-            new = ('let mut %s = None; let __fs = %s; let mut __fk: usize = 0;\n            while __fk < __fs.len() {\n                let %s = &__fs[__fk]; __fk += 1;\n'
+            new = ('let mut %s%s = None; let __fs = %s; let mut __fk: usize = 0;\n            while __fk < __fs.len() {\n                let %s = &__fs[__fk]; __fk += 1;\n'
                    '                if let Some(__fy) = (%s) {\n                    let __fhit = { let %s = &__fy; %s };\n'
-                   '                    if __fhit { %s = Some(__fy); break; }\n                }\n            }' % (v, recv, x, m, y, p, v))
+                   '                    if __fhit { %s = Some(__fy); break; }\n                }\n            }' % (v, (': ' + ty) if ty else '', recv, x, m, y, p, v))
             hit = (toks[let_i][1], toks[close2 + 1][2], new)
             break
         if not hit: break
@@ -111,7 +111,7 @@ def filter_map_find_loop(text, **_):
 @R.rule('c13-rposition-loop')
 def rposition_loop(text, **_):
     """`let V = E.iter().rposition(|X| P);`   (E a slice)   ->
-         let mut V = None; let mut __rk: usize = E.len();
+         let mut V: Option<usize> = None; let mut __rk: usize = E.len();
          while __rk > 0 { __rk -= 1; let X = &E[__rk]; if P { V = Some(__rk); break; } }
     std (Iterator::rposition): "Searches for an element in an iterator from the right, returning its index ... rposition() is
     short-circuiting; in other words, it will stop processing as soon as it finds a true"; the index is the one counted from the front
@@ -133,7 +133,7 @@ def rposition_loop(text, **_):
                 raise Undecided('c13-rposition-loop: control flow inside the predicate')
             let_i, v = _let_stmt(text, toks, i - 6, 'c13-rposition-loop')
             e = L.tok_text(text, toks[i - 6])
-            new = ('let mut %s = None; let mut __rk: usize = %s.len();\n        while __rk > 0 {\n            __rk -= 1; let %s = &%s[__rk];\n'
+            new = ('let mut %s: Option<usize> = None; let mut __rk: usize = %s.len();\n        while __rk > 0 {\n            __rk -= 1; let %s = &%s[__rk];\n'
                    '            if %s { %s = Some(__rk); break; }\n        }' % (v, e, x, e, p, v))
             hit = (toks[let_i][1], toks[close + 1][2], new)
             break
@@ -190,6 +190,10 @@ def closure_visitor(text, ctor=None, writeback=None, body_from=None, body_to=Non
 
 
 EXTRA_RULES = [
+    ('c13-captured-assign', r'(?<![\w.*])result = Some\(decl\);', '*result = Some(decl);',
+     'inside the closure `result` is the captured variable of the enclosing function (captured by unique borrow because the body assigns it: '
+     'Rust reference, closure capture modes); an assignment in the closure body is an assignment through that borrow. In the lifted body '
+     '(statement slice) the borrow is the explicit `&mut` parameter, so the assignment is spelled `*result = ..`'),
     ('c13-fnmut-visitor-bound', r'F: FnMut\(ScopeOrDeclId\) -> bool,', 'F: DeclVisitor,',
      '`F: FnMut(ScopeOrDeclId) -> bool` is the trait bound `FnMut<(ScopeOrDeclId,), Output = bool>`, whose only method is '
      '`call_mut(&mut self, (ScopeOrDeclId,)) -> bool`. The bound is renamed to the unit trait `DeclVisitor` with the method '
@@ -205,6 +209,55 @@ EXTRA_RULES = [
      'RangeInclusive<usize> yields B, B-1, .., A (nothing if A > B). `B + 1` cannot wrap: Verus checks the addition (obligation). A '
      '`continue` in BODY jumps to the loop head, where the counter is decremented before use, exactly as the iterator would step'),
 ]
+
+
+CHILD_LOOP = """invariant
+                    it.seq().len() == ks.len(), forall|j: int| 0 <= j < ks.len() ==> *it.seq()[j] == ks[j],
+                    f.inv(), run::<F>(f0, decls_from(ks, 0)) == run::<F>(f.state(), decls_from(ks, it.index@ as int)), stmt_kind(scope.kind),
+                    (scope.id.id as int) < self.scopes@.len(), *scope == self.scopes@[scope.id.id as int], ks == scope.children@, f0 == old(f).state(),"""
+CHILD_DONE = "proof { assert(decls_from(ks, ks.len() as int) =~= Seq::empty()); lemma_run_empty::<F>(f.state()); }"
+CHILD_STEP = "proof { lemma_child_step::<F>(f.state(), ks, it.index@ as int); }"
+RPOS_LOOP = """invariant_except_break
+                    cut is None,
+                    forall|j: int| __rk <= j < ks.len() ==> !before(ss, ks[j], p),
+                invariant
+                    __rk <= ks.len(), children@ == ks, ss == self.scopes@, p == position.raw as int, links_wf(ss),
+                ensures
+                    cut matches Some(c) ==> c < ks.len() && before(ss, ks[c as int], p) && (forall|j: int| c < j < ks.len() ==> !before(ss, ks[j], p)),
+                    cut is None ==> forall|j: int| 0 <= j < ks.len() ==> !before(ss, ks[j], p),
+                decreases __rk"""
+WALK_LOOP = """invariant
+                    __ri <= cut + 1, cut < ks.len(), children@ == ks, ss == self.scopes@, links_wf(ss), f.inv(),
+                    (scope.id.id as int) < ss.len(), *scope == ss[scope.id.id as int], ks == scope.children@, p == position.raw as int,
+                    cut as int == m_cut(ss, ks, p, ks.len() as int), f0 == old(f).state(),
+                    run::<F>(f0, m_walk(ss, ks, cut as int)) == run::<F>(f.state(), m_walk(ss, ks, __ri as int - 1)),
+                decreases __ri"""
+WALK_STEP = "proof { lemma_walk_step::<F>(f.state(), ss, ks, i as int); }"
+VISIT_FIRST = """let ghost f0 = f.state(); let ghost ss = self.scopes@; let ghost i = scope.id.id as int; let ghost p = position.raw as int;
+        proof {
+            let a = if first_scope(ss, i) >= 0 { m_search(ss, first_scope(ss, i), p) } else { Seq::<ScopeOrDeclId>::empty() };
+            lemma_visit_segments::<F>(f0, a, m_search(ss, i, p), m_up(ss, i, p));
+            lemma_visit_unfold(ss, i, p, is_entry);
+        }"""
+FIND_OUTER = """invariant
+                    links_wf(self.scopes@), (scope.id.id as int) < self.scopes@.len(), *scope == self.scopes@[scope.id.id as int],
+                    inside(self.scopes@, scope.id.id as int, position.raw as int),
+                ensures
+                    (scope.id.id as int) < self.scopes@.len(), *scope == self.scopes@[scope.id.id as int],
+                    is_leaf(self.scopes@, scope.id.id as int, position.raw as int),
+                decreases self.scopes@.len() - scope.id.id"""
+FIND_INNER = """invariant_except_break
+                    child_scope is None,
+                    forall|j: int| 0 <= j < __fk ==> (#[trigger] scope.children@[j] matches ScopeOrDeclId::Scope(sid) ==> !rng(self.scopes@, sid.id as int, position.raw as int)),
+                invariant
+                    __fk <= __fs@.len(), __fs@ == scope.children@, links_wf(self.scopes@),
+                    (scope.id.id as int) < self.scopes@.len(), *scope == self.scopes@[scope.id.id as int],
+                ensures
+                    child_scope matches Some(c) ==> scope.id.id < c.id.id && (c.id.id as int) < self.scopes@.len() && *c == self.scopes@[c.id.id as int]
+                        && rng(self.scopes@, c.id.id as int, position.raw as int),
+                    child_scope is None ==> forall|j: int| 0 <= j < scope.children@.len() ==>
+                        (#[trigger] scope.children@[j] matches ScopeOrDeclId::Scope(sid) ==> !rng(self.scopes@, sid.id as int, position.raw as int)),
+                decreases __fs@.len() - __fk"""
 
 
 def fn(name, impl='LuaDeclarationTree', file=TREE, **kw):
@@ -232,7 +285,7 @@ UNIT = {
     'items': {
         'FileId': {'src': {'file': SRC + 'vfs/file_id.rs', 'kind': 'struct', 'name': 'FileId', 'drop_attrs': False}},
         'LuaDeclId': {'src': {'file': DID, 'kind': 'struct', 'name': 'LuaDeclId', 'drop_attrs': False}},
-        'LuaScopeKind': {'src': {'file': SCOPE, 'kind': 'enum', 'name': 'LuaScopeKind', 'drop_attrs': False}},
+        'LuaScopeKind': {'src': {'file': SCOPE, 'kind': 'enum', 'name': 'LuaScopeKind', 'drop_attrs': False}, 'attrs': '#[derive(Structural)]'},
         'LuaScopeId': {'src': {'file': SCOPE, 'kind': 'struct', 'name': 'LuaScopeId', 'drop_attrs': False}},
         'ScopeOrDeclId': {'src': {'file': SCOPE, 'kind': 'enum', 'name': 'ScopeOrDeclId', 'drop_attrs': False}},
         'LuaScope': {'src': {'file': SCOPE, 'kind': 'struct', 'name': 'LuaScope'}, 'rules': [('struct-fields', {})]},
@@ -251,6 +304,72 @@ UNIT = {
         'LuaDeclarationTree::get_scope': fn(
             'get_scope', ret='r',
             ensures='r == (if (scope_id.id as int) < self.scopes@.len() { Some(&self.scopes@[scope_id.id as int]) } else { None::<&LuaScope> })'),
+
+        # ---- the traversal ------------------------------------------------------------------------------------------------------------
+        'LuaDeclarationTree::visit_child_scope': fn(
+            'visit_child_scope', ret='r', rules=['c13-fnmut-visitor-bound', ('c13-fnmut-visitor-call', {'count': 2})],
+            requires=WF + ', ' + SC + ', old(f).inv()',
+            ensures='final(f).inv(), (final(f).state(), r) == run::<F>(old(f).state(), m_expose(self.scopes@, scope.id.id as int)) /*@C13.expose.model*/',
+            body_first='let ghost f0 = f.state(); let ghost ks = scope.children@;',
+            iter_names={0: 'it', 1: 'it'},
+            loops={0: CHILD_LOOP, 1: CHILD_LOOP},
+            proof=[(r'false\s*\}\s*LuaScopeKind::LocalOrAssignStat', 'before', CHILD_DONE),
+                   (r'false\s*\}\s*_ => false', 'before', CHILD_DONE),
+                   (r'(?s)if let ScopeOrDeclId::Decl\(decl_id\) = child(?=.*LuaScopeKind::LocalOrAssignStat =>)', 'before', CHILD_STEP),
+                   (r'(?s)if let ScopeOrDeclId::Decl\(decl_id\) = child(?!.*LuaScopeKind::LocalOrAssignStat =>)', 'before', CHILD_STEP)]),
+        'LuaDeclarationTree::search_scope_children': fn(
+            'search_scope_children', ret='r',
+            rules=['c13-fnmut-visitor-bound', ('c13-fnmut-visitor-call', {'count': 1}), 'c13-rposition-loop', 'c13-rev-range'],
+            requires=WF + ', ' + SC + ', old(f).inv()',
+            ensures='final(f).inv(), (final(f).state(), r) == run::<F>(old(f).state(), m_search(self.scopes@, scope.id.id as int, position.raw as int)) /*@C13.search.model*/',
+            body_first='let ghost f0 = f.state(); let ghost ss = self.scopes@; let ghost ks = scope.children@; let ghost p = position.raw as int;',
+            loops={0: RPOS_LOOP, 1: WALK_LOOP},
+            proof=[(r'let Some\(cut\) = cut else \{', 'before', 'proof { if cut is None { lemma_cut_none(ss, ks, p, ks.len() as int); } }'),
+                   (r'// Walk children in reverse source order', 'before', 'proof { lemma_cut_some(ss, ks, p, ks.len() as int, cut as int); }'),
+                   (r'match children\.get\(i\) \{', 'before', WALK_STEP),
+                   (r'false\s*\}\s*$', 'before', 'proof { lemma_run_empty::<F>(f.state()); }')]),
+        'LuaDeclarationTree::visit_visible_decls': fn(
+            'visit_visible_decls', rules=['c13-fnmut-visitor-bound'],
+            requires=WF + ', ' + SC + ', old(f).inv()',
+            ensures='final(f).inv(), final(f).state() == run::<F>(old(f).state(), m_visit(self.scopes@, scope.id.id as int, position.raw as int, is_entry)).0 /*@C13.visit.model*/',
+            decreases='(if is_entry { 1int } else { 0int }), (if is_entry { self.scopes@.len() - scope.id.id } else { scope.id.id as int })',
+            body_first=VISIT_FIRST),
+        'LuaDeclarationTree::find_scope': fn(
+            'find_scope', ret='r', rules=[('c13-filter-map-find-loop', {'ty': 'Option<&LuaScope>'})],
+            requires=WF,
+            ensures="""self.scopes@.len() == 0 ==> r is None,
+            self.scopes@.len() > 0 ==> (r matches Some(s) && (s.id.id as int) < self.scopes@.len() && *s == self.scopes@[s.id.id as int]
+                && is_leaf(self.scopes@, s.id.id as int, position.raw as int)) /*@C13.find-scope.innermost*/""",
+            loops={0: FIND_OUTER, 1: FIND_INNER},
+            proof=[(r'let child = &__fs\[__fk\];', 'before',
+                    'proof { let c = kids(self.scopes@, scope.id.id as int)[__fk as int]; assert(c == scope.children@[__fk as int]); }')]),
+        # ---- the two visitor closures (statement slices) and their hosts ---------------------------------------------------------------
+        'LuaDeclarationTree::find_local_decl::visitor': {
+            'src': {'kind': 'slice', 'name': 'find_local_decl__visitor', 'in': {'file': TREE, 'kind': 'fn', 'impl': 'LuaDeclarationTree', 'name': 'find_local_decl'},
+                    'from': r'match decl_id \{', 'to': r'\n {12}false',
+                    'head': "pub fn find_local_decl__visitor<'a>(&'a self, name: &str, result: &mut Option<&'a LuaDecl>, decl_id: ScopeOrDeclId) -> bool"},
+            'rules': ['c13-captured-assign'], 'ret': 'r', 'requires': 'keys_ok()',
+            'ensures': """r == find_hit(self, name@, decl_id) /*@C13.lookup.visitor-stops-at-the-name*/,
+            *final(result) == (if r { Some(&self.decls@[decl_id->Decl_0]) } else { *old(result) })"""},
+        'LuaDeclarationTree::get_env_decls::visitor': {
+            'src': {'kind': 'slice', 'name': 'get_env_decls__visitor', 'in': {'file': TREE, 'kind': 'fn', 'impl': 'LuaDeclarationTree', 'name': 'get_env_decls'},
+                    'from': r'match decl_id \{', 'to': r'\n {12}false',
+                    'head': 'pub fn get_env_decls__visitor(&self, result: &mut Vec<LuaDeclId>, decl_id: ScopeOrDeclId) -> bool'},
+            'ret': 'r', 'requires': 'keys_ok()',
+            'ensures': """!r /*@C13.env.visitor-never-stops*/,
+            final(result)@ == (if env_hit(self, decl_id) { old(result)@.push(did(&self.decls@[decl_id->Decl_0])) } else { old(result)@ })"""},
+        'LuaDeclarationTree::find_local_decl': fn(
+            'find_local_decl', ret='r',
+            rules=[('c13-closure-visitor', {'ctor': 'FindVisitor { this: self, name, result }', 'writeback': 'result = __v.result',
+                                            'body_from': r'match decl_id \{', 'body_to': r'\n {12}false'})],
+            requires=WF + ', keys_ok()',
+            ensures="""self.scopes@.len() == 0 ==> r is None"""),
+        'LuaDeclarationTree::get_env_decls': fn(
+            'get_env_decls', ret='r',
+            rules=[('c13-closure-visitor', {'ctor': 'EnvVisitor { this: self, result }', 'writeback': 'result = __v.result',
+                                            'body_from': r'match decl_id \{', 'body_to': r'\n {12}false'})],
+            requires=WF + ', keys_ok()',
+            ensures="""self.scopes@.len() == 0 ==> r is None"""),
     },
     'allow': [r'external_body', r'uninterp'],
     'min_obligations': 10,
